@@ -357,6 +357,36 @@ def run_strays():
                       nontrivial=lambda st: st.cur is not None, stop_after=6)
 
 
+def run_other_streams():
+    """frames of another stream (same PGN and source to another destination; same PGN and destination from another source) are
+    irrelevant input for a stream: decoder X gets the frames of all three streams, one decoder per stream gets only its own,
+    and on every frame X must return what that stream's own decoder returns.  All streams use the same sequence counter."""
+    pgn = 126720
+    streams = {"a": (5, 0x20, 1), "b": (5, 0x21, 2), "c": (6, 0x20, 3)}
+    evs = {}
+    for k, (src, dst, tag) in streams.items():
+        ident = wire.can_id(3, pgn, src, dst)
+        for i, f in enumerate(wire.fast_frames(0, bytes([1, 0x20 * tag & 0xE0]) + bytes((tag * 40 + j) % 250 + 1 for j in range(14)))):
+            evs[f"{k}{i}"] = (k, wire.ebyte_packet(ident, f))
+
+    class S:
+        def __init__(self):
+            self.x = NMEA2000Decoder()
+            self.own = {k: NMEA2000Decoder() for k in streams}
+
+    def step(st, name):
+        k, pkt = evs[name]
+        rx = feed(st.x, "tcp", pkt)
+        ro = feed(st.own[k], "tcp", pkt)
+        if norm(rx) != norm(ro):
+            return [{"kind": "other_stream_changes_results", "facts": {"probe": "streams"}, "signature": "streams:differs",
+                     "detail": f"[event {name}] the decoder that also receives the other streams returned {str(norm(rx))[:70]}, the decoder that receives only stream "
+                               f"{k} (source {streams[k][0]} to destination {streams[k][1]:#x}) returned {str(norm(ro))[:70]}", "case": {"streams": True}}]
+        return []
+    return xstate.bfs(S(), lambda st: list(evs), step, lambda st: common.canon_key([st.x] + [st.own[k] for k in sorted(st.own)]), max_states=30000,
+                      nontrivial=lambda st: len(getattr(st.x, "data", ())) >= 2, stop_after=6)
+
+
 def config_checks():
     """caller-owned argument objects and defaults survive construction; decoders built from the same objects behave alike"""
     vios = []
@@ -401,13 +431,18 @@ def run(ctx):
     sres = run_strays()
     fvios += sres.violations
     fres.append(sres)
+    ores = run_other_streams()
+    fvios += ores.violations
+    fres.append(ores)
     vios = res.violations + cvios + cres.violations + fvios
     cov = {
-        "states": res.states + cres.states, "transitions": res.transitions + cres.transitions,
-        "traces_validated_against_impl": res.transitions * 2 + nprobes + cres.transitions,
-        "evaluations": res.transitions + nprobes + n_cfg + cres.transitions, "distinct_nontrivial": res.nontrivial,
+        "states": res.states + cres.states + sum(r.states for r in fres), "transitions": res.transitions + cres.transitions + sum(r.transitions for r in fres),
+        "traces_validated_against_impl": res.transitions * 2 + nprobes + cres.transitions + 2 * sum(r.transitions for r in fres),
+        "evaluations": res.transitions + nprobes + n_cfg + cres.transitions + sum(r.transitions for r in fres), "distinct_nontrivial": res.nontrivial,
         "distinct_outcomes": 1 + len({v["kind"] for v in vios}),
-        "rule": "BFS states of (decoder X, decoder Y, decoder R that never sees inputs X rejected); every transition feeds one of 27 (thorough: 38) events to X, Y and P (another configuration) (and to R unless X rejected it) and runs 3 probes on a deep copy of X; "
+        "rule": "main search: BFS states of (decoder X, decoder Y, decoder R that never sees inputs X rejected); further differential searches (claims on two decoders; "
+                "filtering decoder vs one that never saw the frames it dropped; stray continuation frames withheld from a second decoder; three streams vs one decoder per stream) are "
+                "counted in states / transitions and listed under claims_search / filtering_search. Main search: every transition feeds one of 27 (thorough: 38) events to X, Y and P (another configuration) (and to R unless X rejected it) and runs 3 probes on a deep copy of X; "
                 "non-trivial = X holds at least one partly received fast-packet message",
         "samples": [{"history": h} for h in res.samples[:2]] or [{"history": []}],
         "probes_run": nprobes, "max_depth": res.max_depth, "configuration_checks": n_cfg,
@@ -423,6 +458,22 @@ def run(ctx):
 
 def replay(ctx, rep):
     c = rep.get("case", {})
+    if c.get("streams"):
+        orig = xstate.bfs
+
+        def forced_o(init, enabled, step, key, **kw):
+            out = xstate.SearchResult()
+            for i, ev in enumerate(c["history"]):
+                v = step(init, ev)
+                if v:
+                    out.violations += [dict(x, case=dict(x.get("case", {}), history=c["history"][:i + 1])) for x in v]
+                    break
+            return out
+        xstate.bfs = forced_o
+        try:
+            return run_other_streams().violations
+        finally:
+            xstate.bfs = orig
     if c.get("strays"):
         orig = xstate.bfs
 
